@@ -254,6 +254,10 @@ def gen_scenario(rng, flavour='plain'):
                     l2 = dict(sc['load'])
                     l2['c0'] = l2['c0'] * rng.choice([0.5, 2.0, 0.0, -1.0, 1.5]) + rng.choice([0.0, 1e-3 * scale / f])
                     ops.append(['setload', l2])
+                geared = [j for j, e in enumerate(sc['elems']) if e['link'] == 'gear']
+                if geared and rng.random() < 0.25:
+                    # a mating re-declared with another efficiency between two simulations (an efficiency sweep on the same objects)
+                    ops.append(['seteff', rng.choice(geared), rng.choice([1.0, 0.5, rng.uniform(0.3, 1.0)])])
                 if rng.random() < 0.4:
                     ops.append(['newsolver'])
                 if rng.random() < 0.3:
@@ -485,6 +489,8 @@ def run_impl(sc, timeout=20, keep_objects=False):
                     els[0].pwm = op[1]
                 elif op[0] == 'setload':
                     els[-1].external_torque = make_load(op[1])
+                elif op[0] == 'seteff':
+                    add_gear_mating(master=els[op[1]], slave=els[op[1] + 1], efficiency=op[2])
                 res['marks'].append(len(pt.time))
         except Timeout:
             raise
@@ -598,28 +604,37 @@ def case_coq(sc, res):
     m = sc['motor']
     st = res['static']
     motor = f'(@Build_motor FX {cq(m["w0"])} {cq(m["Tmax"])} {copt(m["i0"], cq)} {copt(m["imax"], cq)})'
-    elems = clist([f'(@Build_elem FX {flit(e["ratio"])} {flit(e["eff"])} {cq(["InertiaMoment"] + e["J"])} {"true" if e["spur"] else "false"})' for e in st['elems']])
-    chain = f'(@Build_chain FX {motor} {cq(m["J"])} {elems} {"true" if st["selflock"] else "false"})'
+    def cchain(elems_):
+        el = clist([f'(@Build_elem FX {flit(e["ratio"])} {flit(e["eff"])} {cq(["InertiaMoment"] + e["J"])} {"true" if e["spur"] else "false"})' for e in elems_])
+        return f'(@Build_chain FX {motor} {cq(m["J"])} {el} {"true" if st["selflock"] else "false"})'
+    cur_elems = [dict(e) for e in st['elems']]
+    chain = cchain(cur_elems)
     def cload(l):
         return f'(@LoadAffine FX {flit(l["c0"])} {flit(l["ct"])} {flit(l["cp"])} {flit(l["cs"])} {coq_str(l["u"])})'
     load = cload(sc['load'])
-    segs, cur = [], []
+    cur_load = sc['load']
+    segs, cur = [], []              # a new segment whenever the user re-declares the external torque or a mating's efficiency
     first_ops = None
     for o in sc['ops']:
-        if o[0] == 'setload':
+        if o[0] in ('setload', 'seteff'):
             if first_ops is None:
                 first_ops = cur
             else:
-                segs[-1][1].extend(cur)
-            segs.append([o[1], []])
+                segs[-1][2].extend(cur)
+            if o[0] == 'setload':
+                cur_load = o[1]
+            else:
+                cur_elems = [dict(e) for e in cur_elems]
+                cur_elems[o[1]]['eff'] = float(o[2])
+            segs.append([cchain(cur_elems), cur_load, []])
             cur = []
         else:
             cur.append(o)
     if first_ops is None:
         first_ops = cur
     else:
-        segs[-1][1].extend(cur)
-    more = clist([f'({cload(l)}, {clist([cop(o) for o in ops])})' for l, ops in segs])
+        segs[-1][2].extend(cur)
+    more = clist([f'({c_}, {cload(l)}, {clist([cop(o) for o in ops])})' for c_, l, ops in segs])
     if res['err'] is None:
         exp = f'(EHist {clist([crow(r) for r in res["rows"]])} {"None" if res["locked"] is None else ("(Some true)" if res["locked"] else "(Some false)")})'
     elif res['err'].startswith('Other'):
